@@ -59,13 +59,13 @@ Qed.
 (* frames: top-down through the active outline, stop at the first frame whose clauses interrupt *)
 Lemma segue_frames_cons t f l w : crashed w = None ->
   segue_frames P sub t (f :: l) w =
-  let '(w', r) := precur P sub t f (preacts (getf P f)) w in
+  let '(w', r) := precur P sub t f (preacts (getf P t f)) w in
   if r then (w', true) else segue_frames P sub t l w'.
 Proof. intros Hc. cbn [segue_frames]. rewrite Hc. reflexivity. Qed.
 
 Lemma segue_first_frame_wins : forall l1 t f l2 w w1 w2,
   segue_frames P sub t l1 w = (w1, false) -> crashed w1 = None ->
-  precur P sub t f (preacts (getf P f)) w1 = (w2, true) ->
+  precur P sub t f (preacts (getf P t f)) w1 = (w2, true) ->
   segue_frames P sub t (l1 ++ f :: l2) w = (w2, true).
 Proof.
   induction l1 as [|f1 l1 IH]; intros t f l2 w w1 w2 H1 Hc Hs.
@@ -74,35 +74,35 @@ Proof.
   - cbn [app]. destruct (crashed w) eqn:Hcw.
     { cbn [segue_frames] in H1. rewrite Hcw in H1. discriminate. }
     rewrite segue_frames_cons in H1 |- * by assumption.
-    destruct (precur P sub t f1 (preacts (getf P f1)) w) as [w' r]. destruct r; [discriminate|].
+    destruct (precur P sub t f1 (preacts (getf P t f1)) w) as [w' r]. destruct r; [discriminate|].
     eapply IH; eauto.
 Qed.
 
 (* a transition whose conditions fail or whose target refuses entry changes nothing at all *)
 Lemma transit_refused_noop t ns far w :
   (forallb (eval_need P t w) ns = false \/
-   let '(ex, en, re) := ExEn P (actives (gett w t)) far in framer_checkEnter P sub en ex w = false) ->
+   let '(ex, en, re) := ExEn P t (actives (gett w t)) far in framer_checkEnter P sub t en ex w = false) ->
   transit P sub t ns far w = (w, false).
 Proof.
   intros [H|H]; unfold transit.
   - rewrite H. reflexivity.
   - destruct (negb (forallb (eval_need P t w) ns)); [reflexivity|].
-    destruct (ExEn P (actives (gett w t)) far) as [[ex en] re]. rewrite H. reflexivity.
+    destruct (ExEn P t (actives (gett w t)) far) as [[ex en] re]. rewrite H. reflexivity.
 Qed.
 
 Lemma transit_taken t ns far w w' :
   transit P sub t ns far w = (w', true) ->
   forallb (eval_need P t w) ns = true /\
-  let '(ex, en, re) := ExEn P (actives (gett w t)) far in
-  framer_checkEnter P sub en ex w = true /\
-  w' = guard (framer_enter P sub t en (framer_renter P sub re (framer_rexit P sub re (framer_exit P sub ex w))))
+  let '(ex, en, re) := ExEn P t (actives (gett w t)) far in
+  framer_checkEnter P sub t en ex w = true /\
+  w' = guard (framer_enter P sub t en (framer_renter P sub t re (framer_rexit P sub t re (framer_exit P sub t ex w))))
              (activate P t far).
 Proof.
   unfold transit. intros H.
   destruct (forallb (eval_need P t w) ns); cbn [negb] in H; [|discriminate].
   split; [reflexivity|].
-  destruct (ExEn P (actives (gett w t)) far) as [[ex en] re].
-  destruct (framer_checkEnter P sub en ex w); cbn [negb] in H; [|discriminate].
+  destruct (ExEn P t (actives (gett w t)) far) as [[ex en] re].
+  destruct (framer_checkEnter P sub t en ex w); cbn [negb] in H; [|discriminate].
   split; [reflexivity|]. inversion H. reflexivity.
 Qed.
 
